@@ -23,7 +23,7 @@ ID = 'C18'
 SRC = ['hail/python/hailtop/batch/backend.py', 'hail/python/hailtop/batch/job.py', 'hail/python/hailtop/batch/resource.py',
        'hail/python/hailtop/batch/batch.py']
 COQ_PROPS = 'theories/DslResources/Props_C18.v'
-READY = False
+READY = True
 META = dict(
     design_ref='§5.D C18',
     technique='Coq proofs (induction over command segments for the regex scan; invariant over all DSL operation sequences; token '
@@ -158,8 +158,10 @@ def gen_scenario(rng, digit_after_ref=False, dup_tokens=False, errors=False):
                 segs.append(['T', t])
             ops.append({'op': 'command', 'job': j, 'segs': segs})
     for j in range(n):
-        if made[j] and rng.random() < 0.3:
-            ops.append({'op': 'write_output', 'res': rng.choice(made[j]), 'dest': f'gs://out-bucket/result{j}'})
+        # write_output of a group member that was never mentioned on its own raises KeyError in Batch.write_output (outside this property)
+        own = [x[1] for o in ops if o['op'] == 'command' and o['job'] == j for x in o['segs'] if x[0] == 'R' and x[1][0] in ('job', 'jobgroup', 'jobgroupfile') and x[1][1] == j]
+        if own and rng.random() < 0.3:
+            ops.append({'op': 'write_output', 'res': rng.choice(own), 'dest': f'gs://out-bucket/result{j}'})
     return {'token_stream': toks, 'jobs': jobs, 'inputs': inputs, 'input_groups': input_groups, 'ops': ops,
             'flags': {'digit_after_ref': digit_after_ref, 'dup_tokens': dup_tokens, 'errors': errors}}
 
@@ -423,7 +425,7 @@ def oracle(ctx, budget):
     for c, r in zip(cs, impl):
         fs = judge(c, r)
         fails += fs
-        k = 'error:' + r['error']['class'] if r['error'] else 'ok'
+        k = 'error:' + r['error']['class'].split(':__')[0] if r['error'] else 'ok'
         hist[k] = hist.get(k, 0) + 1
     return fails, {'evaluations': len(cs), 'distinct_nontrivial': len({json.dumps([c['jobs'], c['ops']]) for c in cs}),
                    'rule': 'oracle: expected command text built from the very objects interpolated; path uniqueness; create_job '
